@@ -19,4 +19,9 @@ CHECKS = {
         "note": "Assumes the application feeds back each accepted counter. Times are integers here (datetime normalisation is C13). Unicode digit tokens are treated as the code treats them (str.isdigit table reflected from the interpreter).",
         "design_ref": "DESIGN.md §5 C14",
     },
+    "C13": {
+        "text": "Theorems: dynamic truncation equals RFC 4226 DT for every digest of >= 20 bytes; the rendered token is the zero-padded decimal of DT mod 10^digits with exactly `digits` digits; counter = floor(time/period), start <= t < expire, expire - start = period; base32 and hex key texts round-trip and denote the same key; inserted separators, '=' and lower case are ignored. All expressions (offset, mask, slice, render shape, counter arithmetic, cleaning set) are regenerated from totp.py each run. Real TOTP objects are compared with the compiled model and an independent RFC implementation over keys x algorithms x digits x periods x times (ints, floats, naive/aware datetimes).",
+        "note": "hashlib SHA digests and calendar.timegm are external (parameters of the model; timegm is compared with a days-from-civil formula).",
+        "design_ref": "DESIGN.md §5 C13",
+    },
 }
